@@ -53,6 +53,7 @@ type rewriter struct {
 	nlabel    int
 	file      string
 	rangeChan map[*ast.RangeStmt]bool
+	rangeMap  map[*ast.RangeStmt]bool
 }
 
 func main() {
@@ -111,11 +112,11 @@ func main() {
 		files = append(files, f)
 	}
 
-	rangeChan := detectRangeOverChan(fset, files)
+	rangeChan, rangeMap := detectRangeOverChan(fset, files)
 
 	for i, f := range files {
 		n := names[i]
-		rw := &rewriter{fset: fset, file: n, rangeChan: rangeChan}
+		rw := &rewriter{fset: fset, file: n, rangeChan: rangeChan, rangeMap: rangeMap}
 		rw.rewriteFile(f)
 
 		var buf bytes.Buffer
@@ -337,6 +338,10 @@ func (rw *rewriter) stmt(s ast.Stmt) []ast.Stmt {
 			return rw.rangeOverChan(s)
 		}
 
+		if rw.rangeMap[s] {
+			return rw.rangeOverMap(s)
+		}
+
 		s.X = rw.expr(s.X)
 		rw.block(s.Body)
 	case *ast.SwitchStmt:
@@ -498,6 +503,50 @@ func (rw *rewriter) rangeOverChan(s *ast.RangeStmt) []ast.Stmt {
 		&ast.AssignStmt{Lhs: []ast.Expr{ch}, Tok: token.DEFINE, Rhs: []ast.Expr{rw.expr(s.X)}},
 		&ast.ForStmt{Body: &ast.BlockStmt{List: body}},
 	}})
+}
+
+// rangeOverMap rewrites `for k, v := range m { body }` into a deterministic cursor iteration:
+//
+//	for _vit := vsched.MapIter(m); _vit.Next(); { k, v := _vit.Key(), _vit.Value(); body }
+func (rw *rewriter) rangeOverMap(s *ast.RangeStmt) []ast.Stmt {
+	rw.nlabel++
+	it := ast.NewIdent(fmt.Sprintf("_vit%d", rw.nlabel))
+
+	rw.block(s.Body)
+
+	sel := func(name string) ast.Expr {
+		return &ast.CallExpr{Fun: &ast.SelectorExpr{X: ast.NewIdent(it.Name), Sel: ast.NewIdent(name)}}
+	}
+
+	var pre []ast.Stmt
+
+	isBlank := func(e ast.Expr) bool {
+		id, ok := e.(*ast.Ident)
+		return e == nil || (ok && id.Name == "_")
+	}
+
+	tok := s.Tok
+	if tok == token.ILLEGAL {
+		tok = token.DEFINE
+	}
+
+	if !isBlank(s.Key) {
+		pre = append(pre, &ast.AssignStmt{Lhs: []ast.Expr{s.Key}, Tok: tok, Rhs: []ast.Expr{sel("Key")}})
+	}
+
+	if !isBlank(s.Value) {
+		pre = append(pre, &ast.AssignStmt{Lhs: []ast.Expr{s.Value}, Tok: tok, Rhs: []ast.Expr{sel("Value")}})
+	}
+
+	// the original body keeps its own scope (it may redeclare the loop variables, e.g. `k := k`)
+	body := &ast.BlockStmt{List: append(pre, s.Body), Lbrace: s.Body.Lbrace, Rbrace: s.Body.Rbrace}
+
+	return one(&ast.ForStmt{
+		For:  s.For,
+		Init: &ast.AssignStmt{Lhs: []ast.Expr{it}, Tok: token.DEFINE, Rhs: []ast.Expr{rw.vcall(s.X, "MapIter", rw.expr(s.X))}},
+		Cond: sel("Next"),
+		Body: body,
+	})
 }
 
 func (rw *rewriter) exprs(list []ast.Expr) {
